@@ -1048,38 +1048,61 @@ static int vnadata_save_common(vnadata_t *vdp, FILE *fp, const char *filename,
     }
 
     /*
-     * If touchstone 1, normalize all system impedances to 1.
+     * If touchstone 1, normalize the data to the reference impedance.
+     * Convert a copy of the data to the parameter type being saved
+     * using the actual impedances, then scale the elements directly:
+     * z / z0, y * z0, h11 / z0, h22 * z0, g11 * z0, g22 / z0.  (Taking
+     * the route through s-parameters re-referenced to one ohm gives
+     * the same result mathematically but cancels catastrophically when
+     * the elements are very large or very small compared to z0.)
      */
     if (vdip->vdi_filetype == VNADATA_FILETYPE_TOUCHSTONE1 &&
 	    z0_vector[0] != 1.0) {
 	vnadata_t *vdp_copy;
 	vnadata_parameter_type_t target_type;
+	const double z0 = creal(z0_vector[0]);
 
-	/*
-	 * If the input type is S or T, make a writeable copy.	Otherwise,
-	 * convert to S using the existing z0.
-	 */
+	target_type = vdip->vdi_format_vector[0].vfd_parameter;
+	if (target_type == VPT_UNDEF) {
+	    target_type = type;
+	}
 	if ((vdp_copy = vnadata_alloc(vdip->vdi_error_fn,
 			vdip->vdi_error_arg)) == NULL) {
 	    goto out;
 	}
-	switch (vnadata_get_type(vdp)) {
-	case VPT_S:
-	default:
-	    target_type = VPT_S;
-	    break;
-
-	case VPT_T:
-	    target_type = VPT_T;
-	    break;
-
-	case VPT_U:
-	    target_type = VPT_U;
-	    break;
-	}
 	if (vnadata_convert(vdp, vdp_copy, target_type) == -1) {
 	    vnadata_free(vdp_copy);
 	    goto out;
+	}
+	for (int findex = 0; findex < frequencies; ++findex) {
+	    double complex *m = vdp_copy->vd_data[findex];
+
+	    switch (target_type) {
+	    case VPT_Z:
+		for (int cell = 0; cell < ports * ports; ++cell) {
+		    m[cell] /= z0;
+		}
+		break;
+
+	    case VPT_Y:
+		for (int cell = 0; cell < ports * ports; ++cell) {
+		    m[cell] *= z0;
+		}
+		break;
+
+	    case VPT_H:
+		m[0] /= z0;
+		m[3] *= z0;
+		break;
+
+	    case VPT_G:
+		m[0] *= z0;
+		m[3] /= z0;
+		break;
+
+	    default:
+		break;
+	    }
 	}
 
 	/*
@@ -1094,19 +1117,13 @@ static int vnadata_save_common(vnadata_t *vdp, FILE *fp, const char *filename,
 
 	/*
 	 * Save the copy in the conversions array so that it gets freed
-	 * at out.  Replace vdp and z0_vector.	Even if we need the
-	 * original type, we have to convert it from out new matrix in
-	 * order to normalize impedances.
+	 * at out.  Replace vdp and z0_vector.
 	 */
 	conversions[target_type] = vdp_copy;
 	vdp = vdp_copy;
 	type = vdp->vd_type;
 	vdip = VDP_TO_VDIP(vdp);
-	if (!(vdip->vdi_flags & VF_PER_F_Z0)) {
-	    z0_vector = vdip->vdi_z0_vector;
-	} else {
-	    assert(z0_vector == NULL);
-	}
+	z0_vector = vdip->vdi_z0_vector;
     }
 
     /*
